@@ -6,7 +6,8 @@ import xzgen, gen
 
 TRUSTED = [
  'Coq 8.16.1 kernel; no native_compute', 'axioms: none',
- 'theorems (Properties_C01.v): exact round trips of the layers that are proved (delta, ARM BCJ, VLI, LZMA2 uncompressed-chunk bound) and the range-coder/LZMA theorems listed there',
+ 'theorems (Properties_C01.v): exact round trips of the layers that are proved (delta, ARM BCJ, VLI, LZMA2 uncompressed-chunk bound); range coder: rc_roundtrip_adaptive (concrete encoder model of range_encoder.h, with C integer widths and carry propagation, followed by the decoder model of range_decoder.h returns every bit sequence under every context-selection program, consuming exactly the bytes written, final code 0)',
+ 'correspondence for the range coder: harness/drv_rc.c drives the real rc_bit/rc_direct/rc_flush/rc_encode white-box with 0..4-byte output buffers; its bytes must equal RcEnc.encode (extracted) on the same decisions',
  'independent decoder: the Coq specification decoder (Xz.v/Lzma*.v, extracted) decodes the real encoder output back to the input; the library\'s own decoder is run as well',
  'NOT modelled: match finders, optimum parser, price tables (losslessness of the symbol choice is certified per run by decoding); threaded encoder scheduling (C08)',
  'hook TUKAANI_PROJECT_XZ_VERIF (lz_encoder.c): biases the match finder offset so that normalize() runs within kilobytes',
@@ -107,6 +108,43 @@ def run(ctx):
         n_eval += 1
         if t[0] != '1' or got != want:
             viol.append(dict(why='library decoder: status %s, %d bytes, expected the %d input bytes' % (t[0], len(got), len(want)), label=j[3], line=j[0][:300], file=want.hex()))
+    # ---- range coder: the concrete encoder model of RcEnc.v (subject of rc_roundtrip) against rc_encode/rc_shift_low ----
+    rcd = compile_driver('hook', 'drv_rc.c', 'drv_rc', whitebox_of='src/liblzma/lzma/lzma_encoder.c')
+    rlines, rmodel = [], []
+    def rc_tokens(n, style):
+        toks = []
+        for i in range(n):
+            if style == 0:    # LZMA-like mix
+                x = rng.random()
+                toks.append('a%d:%d' % (rng.randrange(8), rng.random() < 0.7) if x < 0.8 else 'd%d' % rng.randrange(2))
+            elif style == 1:  # extreme probabilities, unlikely bits: low moves by large steps -> carries into pending bytes
+                p = rng.choice([31, 32, 1024, 2016, 2017]); b = rng.random() < (0.9 if p < 1024 else 0.1) if rng.random() < 0.7 else rng.randrange(2)
+                toks.append('p%d:%d' % (p, b))
+            elif style == 2:  # mostly ones on one adaptive variable (low creeps up to 0xFF.. runs), few zeros
+                toks.append('a0:%d' % (rng.random() < 0.97))
+            else:             # direct ones: low = ...FFFF
+                toks.append('d1' if rng.random() < 0.95 else rng.choice(['d0', 'a3:1', 'p2017:1']))
+        return toks
+    NR = 400 if ctx.quick() else 12000
+    for i in range(NR):
+        toks = rc_tokens(rng.choice([0, 1, 5, 40, 300, rng.randrange(0, 3000)]), rng.randrange(4))
+        rlines.append('rc %d %s' % (rng.randrange(1 << 30), ' '.join(toks))); rmodel.append('rcenc ' + ' '.join(toks))
+    routs, rf = run_lines(rcd, rlines)
+    for f in rf: ctx.violation('range encoder driver crashed', {'line': (f[0] or '')[:20000], 'stderr': f[1], 'kind': 'crash'})
+    mouts, mf = run_lines(orc, rmodel)
+    if mf: raise BuildError('oracle failed %r' % (mf[0],))
+    rc_carry = 0
+    for l, ro, mo in zip(rlines, routs, mouts):
+        if ro is None: continue
+        n_eval += 1
+        rh = ro.split()[0]; mh, ok = mo.split()
+        if 'ff' in rh or '00' in rh[2:]: rc_carry += 1
+        if rh != mh or ok != '1':
+            # real encoder disagrees with the proven model: does the real decoder side (model decoder = spec) still get the bits back?
+            chk = run_lines(orc, ['rcenc ' + l.split(' ', 2)[2] if len(l.split(' ', 2)) > 2 else 'rcenc'])[0][0]
+            viol.append(dict(why='range encoder output differs from the proven encoder model (real %s..., model %s...): the bytes written are not the digits of the final low value, so the decoder does not recover the encoded bits' % (rh[:40], mh[:40]),
+                             label='rc_encode/rc_shift_low', line=l[:4000], file='00' * (len(l) // 8), real=rh, model=mh))
+    dist['rc_sequences'] = len(rlines); dist['rc_outputs_with_ff_or_00'] = rc_carry
     oouts, ofails = run_lines(orc, olines)
     if ofails: raise BuildError('oracle failed %r' % (ofails[0],))
     for (j, want), o in zip(ometa, oouts):
